@@ -944,7 +944,7 @@ pub fn run(args: &Args) -> i32 {
          with the ordered scan; finally every _rowid and _rowaddr of the scan is resolved back. Non-trivial = >=2 fragments, \
          >=2 rows, deletions or a compaction in the history, >=2 APIs compared; distinct by (version, stable, op kinds, \
          fragment count, APIs).",
-        (60, 900),
+        (85, 900),
     )
     .with_min_nontrivial(args.tier.pick(40, 400));
     let ops = Histo::default();
@@ -960,7 +960,7 @@ pub fn run(args: &Args) -> i32 {
     };
     let selftest = selftest_requested(args);
     let thorough = args.tier == vmon::report::Tier::Thorough;
-    let max_cases = if selftest { 60 } else { args.tier.pick(1_500, 40_000) };
+    let max_cases = if selftest { 60 } else { args.tier.pick(700, 40_000) };
     let st = std::sync::Mutex::new((0u64, 0u64));
     if let Some(i) = args.extra.get("case").and_then(|s| s.parse::<u64>().ok()) {
         let rt = tokio::runtime::Builder::new_current_thread().enable_all().build().unwrap();
